@@ -261,6 +261,25 @@ func (ro *RedisOutput) SetRunId(ctx context.Context, id string) error {
 	}, 3, time.Second*4, 0.3)
 }
 
+// ResetRunId is SetRunId before a snapshot is replayed : the position stored under the previous (or the same) run id
+// describes data the snapshot replaces, it must not survive as a position of the new history
+func (ro *RedisOutput) ResetRunId(ctx context.Context, id string) error {
+	return util.RetryLinearJitter(ctx, func() error {
+		cli, err := ro.NewRedisConn(ctx)
+		if err != nil {
+			return err
+		}
+		defer cli.Close()
+		err = checkpoint.ResetCheckpoint(cli, ro.cfg.CheckpointName, []string{id, ro.cfg.RunId})
+		if err != nil {
+			ro.logger.Errorf("reset checkpoint error : cp(%s), runId(%s,%s), err(%v)", ro.cfg.CheckpointName, id, ro.cfg.RunId, err)
+			return err
+		}
+		ro.cfg.RunId = id
+		return nil
+	}, 3, time.Second*4, 0.3)
+}
+
 func (ro *RedisOutput) Send(ctx context.Context, reader ChannelReader) error {
 	if reader.IsAof() {
 		return ro.SendAof(ctx, reader)
@@ -439,6 +458,14 @@ func (ro *RedisOutput) sendRdb(pctx context.Context, reader ChannelReader) error
 
 	ctx, cancel := context.WithCancel(pctx)
 	defer cancel()
+
+	// the snapshot replaces what the target holds : the stored position is void until the snapshot has been
+	// replayed completely (a full sync has voided it in syncMeta already, a cached snapshot is replayed without one)
+	if ro.cfg.EnableResumeFromBreakPoint {
+		if err := ro.ResetRunId(ctx, reader.RunId()); err != nil {
+			return err
+		}
+	}
 
 	nsize := reader.Size()
 	var readBytes atomic.Int64
